@@ -35,7 +35,7 @@ type c13Grid struct {
 	BlockSize, Restart int
 	Snappy, Bloom      bool
 	BaseLg             int
-	Mode               string // cachepool | nocache | nopool
+	Mode               string // cachepool | nocache | nopool | tinycache | nocacher
 	IKey               bool   // internal keys under the internal comparer
 	Bits               int    // bloom bits per key (0 = 10)
 	NoStrict           bool   // reader opened with opt.NoStrict (block checksums of data blocks not verified)
@@ -176,7 +176,15 @@ func c13Open(g c13Grid, data []byte) (*table.Reader, error) {
 		bp = util.NewBufferPool(g.BlockSize + 5)
 	}
 	var ns *cache.NamespaceGetter
-	if g.Mode != "nocache" {
+	switch g.Mode {
+	case "nocache":
+	case "tinycache":
+		// a cache that keeps nothing once the handle is released: every block (the filter block
+		// too) lives exactly as long as its handle
+		ns = &cache.NamespaceGetter{Cache: cache.NewCache(cache.NewLRU(1)), NS: 1}
+	case "nocacher":
+		ns = &cache.NamespaceGetter{Cache: cache.NewCache(nil), NS: 1}
+	default:
 		ns = &cache.NamespaceGetter{Cache: cache.NewCache(cache.NewLRU(1 << 20)), NS: 1}
 	}
 	return table.NewReader(bytes.NewReader(data), int64(len(data)), storage.FileDesc{Type: storage.TypeTable, Num: 1}, ns, bp, o)
@@ -487,8 +495,17 @@ func c13GridPoints(quick bool) []c13Grid {
 			c13Grid{BlockSize: 16, Restart: 2, Bloom: true, BaseLg: 4, Mode: "cachepool", IKey: true},
 			c13Grid{BlockSize: 1, Restart: 1, BaseLg: 11, Mode: "nopool", IKey: true},
 			c13Grid{BlockSize: 4096, Restart: 16, Snappy: true, Bloom: true, BaseLg: 11, Mode: "cachepool", IKey: true},
+			c13Grid{BlockSize: 16, Restart: 2, Bloom: true, BaseLg: 4, Mode: "tinycache"},
+			c13Grid{BlockSize: 16, Restart: 2, Bloom: true, BaseLg: 2, Mode: "nocacher", IKey: true},
 		)
 		return out
+	}
+	for _, m := range []string{"tinycache", "nocacher"} {
+		for _, bs := range []int{1, 16} {
+			for _, lg := range []int{1, 4} {
+				out = append(out, c13Grid{BlockSize: bs, Restart: 2, Bloom: true, BaseLg: lg, Mode: m}, c13Grid{BlockSize: bs, Restart: 2, Bloom: true, BaseLg: lg, Mode: m, IKey: true})
+			}
+		}
 	}
 	for _, bs := range []int{1, 16, 64, 4096} {
 		for _, ri := range []int{1, 2, 16} {
